@@ -16,6 +16,7 @@ import (
 func (ex *Exec) chanHook(fr *Frame, st *State, ev string, c Term, msg Term) {
 	vc := ex.vc
 	cs := vc.prog.contracts
+	ex.chanMsgHook(fr, st, ev, msg)
 	pkg := fr.fn.Pkg
 	_ = pkg
 	eval := func(ga *GlobalAssume, goal bool) (string, bool) {
@@ -172,3 +173,132 @@ type specCheck struct {
 }
 
 var _ = types.Typ
+
+// monitorEvent: Lock / Unlock of a mutex field for which monitors are declared. Lock forgets the protected
+// state (other threads may have changed it) and assumes the invariants; Unlock must re-establish each
+// invariant and forgets the protected state again.
+func (ex *Exec) monitorEvent(fr *Frame, st *State, recv Val, lock bool) {
+	vc := ex.vc
+	if recv.K != VPtr || recv.P.Kind != PRef || len(recv.P.Path) != 1 || !recv.P.Path[0].IsField {
+		return
+	}
+	p := recv.P
+	var mds []*MonitorDecl
+	for _, m := range vc.prog.contracts.Monitors {
+		env := ex.newEnv(st, nil, m.pkg, fr)
+		if _, s := env.resolveType(m.Type); s == p.SSort && m.Field == p.Path[0].FieldName {
+			mds = append(mds, m)
+		}
+	}
+	if len(mds) == 0 {
+		return
+	}
+	havoc := func() {
+		done := map[string]bool{}
+		for _, md := range mds {
+			for _, pr := range md.Protects {
+				if done[pr] {
+					continue
+				}
+				done[pr] = true
+				if strings.HasPrefix(pr, "ghost ") {
+					ex.havocGhost(st, strings.TrimSpace(pr[6:]))
+					continue
+				}
+				f := pr
+				if i := strings.LastIndex(pr, "."); i >= 0 {
+					f = pr[i+1:]
+				}
+				si := vc.sorts.StructInfo(p.SSort)
+				for _, fi := range si.fields {
+					if fi.name == f {
+						vc.writeField(st, p.Ref, p.SSort, f, vc.fresh("mon_"+f, fi.sort))
+					}
+				}
+			}
+		}
+	}
+	inv := func(md *MonitorDecl, goal bool) (string, bool) {
+		e2 := ex.newEnv(st, vc.entryFor(fr), md.pkg, fr)
+		selfTy, _ := e2.resolveType("*" + md.Type)
+		e2.goal = goal
+		e2.binds["self"] = TVal{T: p.Ref, Ty: selfTy}
+		f := e2.Bool(md.Inv.Expr)
+		if len(e2.errs) > 0 {
+			vc.fatalf("monitor %s.%s invariant: %s", md.Type, md.Field, strings.Join(e2.errs, "; "))
+			return "", false
+		}
+		return f, true
+	}
+	// Inside the function under verification the critical section is reasoned about sequentially (mutual
+	// exclusion is the assumed contract of sync.Mutex): Lock assumes the invariants, Unlock must re-establish
+	// them. What other threads do between two critical sections is visible to callers through the
+	// modifies clauses of the functions that lock (their contracts say nothing about the protected state).
+	_ = havoc
+	if lock {
+		for _, md := range mds {
+			if f, ok := inv(md, false); ok {
+				st.assume(f)
+			}
+		}
+		return
+	}
+	for i, md := range mds {
+		if f, ok := inv(md, true); ok {
+			vc.curProps = md.Props
+			ex.obligationFull(fr, st, "protocol", "unlock re-establishes the monitor invariant of "+md.Type+"."+md.Field+": "+md.Inv.Text, f, false, fmt.Sprintf("monitor.%s.%d", md.Field, i+1), false)
+			vc.curProps = nil
+		}
+	}
+}
+
+// chanSourceName: the local, captured variable or field the channel operand was read from.
+func chanSourceName(v ssa.Value) string {
+	switch x := v.(type) {
+	case *ssa.UnOp:
+		switch a := x.X.(type) {
+		case *ssa.Alloc:
+			return a.Comment
+		case *ssa.FreeVar:
+			return a.Name()
+		case *ssa.FieldAddr:
+			if st, ok := a.X.Type().Underlying().(*types.Pointer).Elem().Underlying().(*types.Struct); ok {
+				return st.Field(a.Field).Name()
+			}
+		}
+	case *ssa.Parameter:
+		return x.Name()
+	}
+	return ""
+}
+
+// chanMsgHook: message invariants of named channels (asserted at a send, assumed at a receive).
+func (ex *Exec) chanMsgHook(fr *Frame, st *State, ev string, msg Term) {
+	vc := ex.vc
+	if (ev != "send" && ev != "recv") || vc.curChanName == "" || msg.S == "" {
+		return
+	}
+	for i, ga := range vc.prog.contracts.ChanMsgs {
+		if ga.Ghost != vc.curChanName {
+			continue
+		}
+		if len(ga.Scope) > 0 && !ex.inScope(fr, ga.Scope) {
+			continue
+		}
+		env := ex.newEnv(st, vc.entryFor(fr), ga.pkg, fr)
+		env.goal = ev == "send"
+		env.binds["m"] = TVal{T: msg, Ty: vc.curChanElem}
+		f := env.Bool(ga.Expr)
+		if len(env.errs) > 0 {
+			vc.fatalf("chanmsg %s: %s", ga.Text, strings.Join(env.errs, "; "))
+			return
+		}
+		if ev == "send" {
+			vc.curProps = ga.Props
+			ex.obligationFull(fr, st, "protocol", "a message sent on "+ga.Ghost+" satisfies: "+ga.Text, f, false, fmt.Sprintf("chanmsg%d@%d", i+1, ex.siteOrdinal(ex.cur)), false)
+			vc.curProps = nil
+		} else {
+			st.assume(f)
+		}
+	}
+}
